@@ -19,6 +19,15 @@ CHECKS = {
         "Trusted: CPython exec, the tuple canonicalisation of Pairs. No reference model is needed (the property is relational). Not covered: larger grammars; bundled real grammars are compared the same way in C08.",
         "5/C01",
     ),
+    "C02": (
+        "exploration", "engine",
+        "stateless exhaustive enumeration of (grammar x optimizer configuration x input) executions, one forked child per configuration; relational oracle optimised == optimizer=None",
+        "Grammars biased to what the passes pattern-match on (squashable choices incl. prefix-overlapping literals, (!X ~ ANY)* shapes, bounded repetitions, silent rules with choice and sequence bodies, explicit WHITESPACE/COMMENT references, a user rule SKIP, tagged groups, built-ins), "
+        "x 278 optimizer configurations (DEFAULT_OPTIMIZER, the pipeline once and twice, each pass alone, all pass sequences of length 2-3, all 120 permutations) x every short input; the eight main configurations are also compared through generate(). "
+        "Same success/failure and same tree (incl. tags) as optimizer=None is required; constructing a parser must not raise.",
+        "Trusted: process isolation by fork (the baseline child never builds an Optimizer before it has finished). The property's 'random subsets/permutations/repetitions' is replaced by this exhaustive bounded configuration set. Failure positions are not compared.",
+        "5/C02",
+    ),
     "C03": (
         "model_checking", "engine",
         "stateless exhaustive enumeration of (grammar x input) executions of the unoptimised interpreter in lock-step with an executable reference PEG model",
